@@ -1550,15 +1550,17 @@ output_3byte_vex_opcode (OrcCompiler *p, const OrcX86Insn *xinsn)
   // Handle flags
   switch (xinsn->opcode->prefix) {
     case ORC_VEX_SIMD_PREFIX_F2:
+      byte3 |= 0x3;
+      break;
     case ORC_VEX_SIMD_PREFIX_F3:
-      byte3 |= 0x2; 
+      byte3 |= 0x2;
       break;
     case ORC_VEX_SIMD_PREFIX_66:
     case ORC_SIMD_PREFIX_MMX:
-    case ORC_SIMD_PREFIX_ESCAPE_ONLY:
-      byte3 |= 0x1; 
+      byte3 |= 0x1;
       break;
     case ORC_VEX_SIMD_PREFIX_NONE:
+    case ORC_SIMD_PREFIX_ESCAPE_ONLY:
       break;
     default:
       ORC_COMPILER_ERROR(p, "unhandled VEX.pp for instruction type %x", xinsn->opcode->prefix);
